@@ -232,6 +232,24 @@ Proof.
     inversion H; subst w'. split; assumption.
 Qed.
 
+(* when the clause STARTS its auxiliary and the auxiliary does not complete in that first run, the framer's
+   active frames become exactly the head of the main frame: everything below it is suspended *)
+Lemma suspend_start_truncates sub a mf ns aux w w' :
+  done (gett w aux) = true -> suspend P sub a mf ns aux w = (w', true) -> a < length (tss w') ->
+  actives (gett w' a) = head P a mf.
+Proof.
+  unfold suspend. intros Hd H Hl. rewrite Hd in H.
+  destruct (negb (forallb (eval_need P a w) ns)); [inversion H|].
+  destruct (match main (gett w aux) with Some (mt, m) => negb (Nat.eqb mt a && Nat.eqb m mf) | None => false end);
+    [inversion H|].
+  destruct (negb (o_checkStart sub aux w)); [inversion H|].
+  match type of H with (match crashed ?W with _ => _ end) = _ => set (W4 := W) in * end.
+  destruct (crashed W4) eqn:Hc; [inversion H|].
+  destruct (done (gett W4 aux)) eqn:Hd4; [inversion H|].
+  inversion H; subst w'. unfold change in *. rewrite modt_length in Hl.
+  rewrite gett_modt. rewrite Nat.eqb_refl. apply Nat.ltb_lt in Hl. rewrite Hl. reflexivity.
+Qed.
+
 (* once it is running, what the clause does no longer depends on its conditions *)
 Lemma suspend_running_ignores_conditions sub a mf ns ns' aux w :
   done (gett w aux) = false -> suspend P sub a mf ns aux w = suspend P sub a mf ns' aux w.
